@@ -309,8 +309,11 @@ def run(repo: Repo, rep: Report, tier: str) -> None:
              "body, either given back its previous value or removed — by a full snapshot assignment, or by a loop over the bound names that restores or pops each one; "
              "a parameter that stays bound shadows a same-named variable of the code that follows")
     bind12 = [c for c in calls_in(inl.node, "update") if norm(c.func.value) == "self.parent.param_values"]
-    if not bind12:
-        raise AnalysisError("C15-R12: the parameter binding (`self.parent.param_values.update(...)`) was not found")
+    # binding by replacement: `self.parent.param_values = dict(<bindings>)` (a value that is not derived from the map itself)
+    repl12 = [n for n in walk_local(inl.node) if isinstance(n, ast.Assign) and norm(n.targets[0]) == "self.parent.param_values"
+              and "self.parent.param_values" not in ci.text(n.value)]
+    if not bind12 and not repl12:
+        raise AnalysisError("C15-R12: the parameter binding (`self.parent.param_values.update(...)` or a replacement of the map) was not found")
     bound_names = {ci.text(c.args[0]) for c in bind12 if c.args}
     snap12 = [n for n in walk_local(inl.node) if isinstance(n, ast.Assign) and norm(n.targets[0]) == "self.parent.param_values"
               and all(a in ("self.parent.param_values.copy()", "dict(self.parent.param_values)") for a in ci.alts(n.value))]
@@ -324,7 +327,7 @@ def run(repo: Repo, rep: Report, tier: str) -> None:
                 loops12.append(n)
     ok12 = bool(snap12) or bool(loops12)
     rep.check(ok12, "C15-R12", "lower_function_call_inline unbinds the call's parameters", "restore-or-pop loop over the bound names" if loops12 else ("snapshot assignment" if snap12 else
-              "the bound names are never removed (only previous values are written back): after `abs(p)` the name x stays bound to p, and a later `Signal q = x * x;` of the caller reads p"), inl.loc(bind12[0]))
+              "the bound names are never removed (only previous values are written back): after `abs(p)` the name x stays bound to p, and a later `Signal q = x * x;` of the caller reads p"), inl.loc(bind12[0] if bind12 else repl12[0]))
 
     # ---------------- R13 --------------------------------------------------------------
     _borrow15(repo, rep, "C12", "C12-R7", "C15-R13", "`e = make()` binds e to the entity the call returned, at top level and inside function or loop bodies alike: the returned-entity channel is "
